@@ -83,7 +83,34 @@ type c14 struct {
 	resolved []string
 	checks   uint64
 	step     int
+	touched  []string // days added or changed by earlier fix-ups (bias: follow-up fix-ups hit the same records)
 }
+
+// pickDay chooses an existing record, half of the time one that an earlier fix-up touched.
+func (c *c14) pickDay(days []string) string {
+	if len(c.touched) > 0 && c.rnd()%2 == 0 {
+		for tries := 0; tries < 8; tries++ {
+			d := c.touched[c.rnd()%uint64(len(c.touched))]
+			if _, ok := c.m.recs[d]; ok {
+				probesC["fix_followup_on_touched_record"]++
+				return d
+			}
+		}
+	}
+	return days[c.rnd()%uint64(len(days))]
+}
+
+// pickName chooses a name index, biased to names appended by a fix-up.
+func (c *c14) pickName(nNames int) int {
+	base := len(hNames0)
+	if nNames > base && c.rnd()%2 == 0 {
+		probesC["fix_uses_appended_name"]++
+		return base + int(c.rnd()%uint64(nNames-base))
+	}
+	return int(c.rnd() % uint64(nNames))
+}
+
+var hNames0 []string
 
 func (c *c14) rnd() uint64 {
 	c.rng += 0x9e3779b97f4a7c15
@@ -179,6 +206,7 @@ func runC14(s *spec.Spec, logPath string) {
 // against the union of the by-year views, so that neither is privileged.
 func (c *c14) build() {
 	c.m = &hmodel{recs: map[string]hrec{}, names: append([]string{}, HolidayUtil.NAMES...)}
+	hNames0 = append([]string{}, HolidayUtil.NAMES...)
 	// discover the span of years that have records
 	c.firstY, c.lastY = 0, 0
 	for y := 1990; y <= 2070; y++ {
@@ -279,7 +307,7 @@ func (c *c14) resolve(st spec.HStep) ([]string, string) {
 				continue
 			}
 			t := dayTime(day).AddDate(0, 0, int(c.rnd()%5)-2).Format("2006-01-02")
-			seg(day, int(c.rnd()%uint64(nNames)), c.rnd()%3 == 0, t)
+			seg(day, c.pickName(nNames), c.rnd()%3 == 0, t)
 			probesC["fix_add_future"]++
 			if day < maxDay {
 				probesC["fix_add_before_existing"]++
@@ -287,11 +315,20 @@ func (c *c14) resolve(st spec.HStep) ([]string, string) {
 		case "add_before":
 			y := c.firstY + int(c.rnd()%uint64(c.lastY-c.firstY+1))
 			day = c.freeDay(y)
+			if len(c.touched) > 0 && c.rnd()%4 == 0 {
+				// re-add a day that an earlier fix-up removed
+				if d := c.touched[c.rnd()%uint64(len(c.touched))]; true {
+					if _, ok := c.m.recs[d]; !ok {
+						day = d
+						probesC["fix_readd_removed_day"]++
+					}
+				}
+			}
 			if used[day] {
 				continue
 			}
 			t := dayTime(day).AddDate(0, 0, int(c.rnd()%7)-3).Format("2006-01-02")
-			seg(day, int(c.rnd()%uint64(nNames)), c.rnd()%3 == 0, t)
+			seg(day, c.pickName(nNames), c.rnd()%3 == 0, t)
 			if day < maxDay {
 				probesC["fix_add_before_existing"]++
 			}
@@ -319,7 +356,7 @@ func (c *c14) resolve(st spec.HStep) ([]string, string) {
 			if len(days) == 0 {
 				continue
 			}
-			r := c.m.recs[days[c.rnd()%uint64(len(days))]]
+			r := c.m.recs[c.pickDay(days)]
 			day = r.day
 			if used[day] || r.name < 0 {
 				continue
@@ -328,7 +365,11 @@ func (c *c14) resolve(st spec.HStep) ([]string, string) {
 			case "replace_flag":
 				r.work = !r.work
 			case "replace_name":
-				r.name = (r.name + 1 + int(c.rnd()%uint64(nNames-1))) % nNames
+				if nn := c.pickName(nNames); nn != r.name {
+					r.name = nn
+				} else {
+					r.name = (r.name + 1 + int(c.rnd()%uint64(nNames-1))) % nNames
+				}
 			default:
 				if c.rnd()%2 == 0 && len(days) > 1 {
 					r.target = c.m.recs[days[c.rnd()%uint64(len(days))]].target
@@ -342,7 +383,7 @@ func (c *c14) resolve(st spec.HStep) ([]string, string) {
 			if len(days) == 0 {
 				continue
 			}
-			day = days[c.rnd()%uint64(len(days))]
+			day = c.pickDay(days)
 			if used[day] {
 				continue
 			}
@@ -384,12 +425,14 @@ func (c *c14) applyFix(names []string, data string) {
 		day := dash(s[:8])
 		if s[8] == '~' {
 			delete(c.m.recs, day)
+			c.touched = append(c.touched, day)
 			continue
 		}
 		if _, ok := c.m.recs[day]; !ok && day < maxDay {
 			c.m.addedBeforeExisting = true
 		}
 		c.m.recs[day] = hrec{day, int(s[8] - '0'), s[9] == '0', dash(s[10:18])}
+		c.touched = append(c.touched, day)
 		if y := dayTime(day).Year(); y > c.lastY {
 			c.lastY = y
 		}
